@@ -107,6 +107,14 @@ def make_scenario(spec):
         K = dyn.get(t + "K")
         thunks = [lambda: repr(K(e="a", es=["b"])), lambda: repr(K(e=1))]
         return thunks, K.__parser__
+    if kind == "lazy-apply":
+        # a plain module-level function (and a plain class) wrapped at first use, by both threads
+        src = "def %sh(x: int, y: str = 'a'):\n    return (x, y)\nclass %sP:\n    def __init__(self, v: int = 0):\n        self.v = v\n" % (t, t)
+        dyn.declare(src)
+        h, P = dyn.get(t + "h"), dyn.get(t + "P")
+        import utype as _u
+        thunks = [lambda: repr(_u.parse(h)("3")), lambda: repr(_u.parse(h)("4", y=5)), lambda: repr(_u.parse(h)(x="6"))][:spec["nthreads"]]
+        return thunks, None
     if kind == "registered":
         # a converter registered (single-threaded) for a new type, then its first lookups made by two threads
         src = ("class %sT(float):\n    pass\n"
@@ -427,6 +435,7 @@ SCENARIOS = [
     dict(kind="inherit", nthreads=3),
     dict(kind="registry", nthreads=2),
     dict(kind="registered", nthreads=3),
+    dict(kind="lazy-apply", nthreads=2),
 ]
 
 
